@@ -4,6 +4,7 @@ import Setec.Proofs.Crypto
 import Setec.Proofs.Base64
 import Setec.Proofs.CacheDoc
 import Setec.Proofs.Wire
+import Setec.Generated.Facts
 /-!
 # C18 - secret bytes round-trip unchanged end to end, including through the CLI
 
@@ -106,5 +107,29 @@ theorem wire_roundtrip (r : DB.Res) (h : Wire.is200 r = true) :
 theorem wire_put_request_roundtrip (name : String) (value : Bytes) :
     Wire.readPutReq (Wire.renderPutReq name value) = some (name, value) :=
   Wire.readPutReq_render name value
+
+/-- what a result tag of the translated function stands for -/
+def interpChoice (value trimmed : Bytes) : String → Option Bytes
+  | "value" => some value
+  | "trimmed" => some trimmed
+  | _ => none
+
+/-- T1, translated: `checkPutText` of cmd/setec as regenerated from the source on every run (its
+if-chain turned into a Lean expression over the atoms `utf8.Valid(value)`, the two lengths and
+the two flags) is the model's decision function. -/
+theorem generated_checkPutText (valid : Bool) (value trimmed : Bytes) (f : Flags) :
+    Facts.gen_checkPutText_ok = true ∧
+    interpChoice value trimmed
+      (Facts.gen_checkPutText trimmed.length value.length f.trimSpace valid f.verbatim) =
+      checkPutText valid value trimmed f := by
+  refine ⟨by decide, ?_⟩
+  unfold Facts.gen_checkPutText checkPutText
+  cases valid
+  · simp [interpChoice]
+  · by_cases hl : trimmed.length = value.length
+    · simp [hl, interpChoice]
+    · have hl' : ((trimmed.length : Int) == (value.length : Int)) = false := by
+        simp only [beq_eq_false_iff_ne, ne_eq]; omega
+      cases hv : f.verbatim <;> cases ht : f.trimSpace <;> simp [hl, hl', interpChoice]
 
 end Setec.C18
